@@ -115,6 +115,8 @@ where
         std::env::set_var("TZ", format!("SIM{}", h));
     }
     let (done_tx, done_rx) = std::sync::mpsc::channel::<()>();
+    crate::interpose::mark_driver_thread();
+    crate::interpose::set_process_running(true);
     let handle = std::thread::Builder::new()
         .name("simproc".into())
         .stack_size(16 << 20)
@@ -142,12 +144,14 @@ where
     // A simulated process takes ~0.1 ms. One that has not finished after SIM_PROCESS_TIMEOUT
     // of real time is hung (the thread cannot be killed, so the OS process reports and exits).
     if done_rx.recv_timeout(SIM_PROCESS_TIMEOUT).is_err() && !handle.is_finished() {
+        crate::interpose::set_process_running(false);
         crate::on_simulated_process_hang();
     }
     let result = match handle.join() {
         Ok(r) => r,
         Err(_) => Err("simulated process thread died".to_string()),
     };
+    crate::interpose::set_process_running(false);
     with_world(|w| {
         w.fs.end_process();
         ProcOut {
@@ -167,30 +171,29 @@ where
     })
 }
 
-/// The library's async fns never wait on anything in simulation (the
-/// transport answers immediately), so a no-op waker poll loop is a complete
-/// executor. async_std's runtime is never started.
+/// The library's async fns normally never wait on anything in simulation (the transport answers
+/// immediately). Should the code under test wait for a timer or for a task on another thread, the
+/// executor parks until woken (or 10 ms), for at most 25 s - a complete single-future executor.
 pub fn block_on<F: std::future::Future>(fut: F) -> F::Output {
-    use std::task::{Context, Poll, RawWaker, RawWakerVTable, Waker};
-    fn noop_raw() -> RawWaker {
-        fn no(_: *const ()) {}
-        fn clone(_: *const ()) -> RawWaker {
-            noop_raw()
+    use std::sync::Arc;
+    use std::task::{Context, Poll, Wake, Waker};
+    struct Unpark(std::thread::Thread);
+    impl Wake for Unpark {
+        fn wake(self: Arc<Self>) {
+            self.0.unpark();
         }
-        static VT: RawWakerVTable = RawWakerVTable::new(clone, no, no, no);
-        RawWaker::new(std::ptr::null(), &VT)
     }
-    let waker = unsafe { Waker::from_raw(noop_raw()) };
+    let waker = Waker::from(Arc::new(Unpark(std::thread::current())));
     let mut cx = Context::from_waker(&waker);
     let mut fut = std::pin::pin!(fut);
-    let mut spins = 0u64;
+    let started = std::time::Instant::now();
     loop {
         if let Poll::Ready(v) = fut.as_mut().poll(&mut cx) {
             return v;
         }
-        spins += 1;
-        if spins > 1_000_000 {
+        if started.elapsed() > std::time::Duration::from_secs(25) {
             panic!("simulated executor: future never became ready");
         }
+        std::thread::park_timeout(std::time::Duration::from_millis(10));
     }
 }
